@@ -7,6 +7,7 @@ import (
 	"crypto/rand"
 	"errors"
 	"fmt"
+	"math"
 	"math/bits"
 	"sync"
 	"sync/atomic"
@@ -296,6 +297,10 @@ func (s *EncryptionSession) Out(prio bool) (
 	seqNum, rollover := sh.NextOut()
 	if rollover {
 		if prio {
+			// Only the regular sequence rolls the key over. Until it does, every
+			// further priority sequence number was already used with this key:
+			// keep refusing instead of starting over at one.
+			sh.HoldOut()
 			return 0, 0, 0, nil, errors.New("prio sequence handler requested key rollover")
 		}
 		// The outgoing key changes: Restart the outgoing priority sequence only.
@@ -462,6 +467,16 @@ func (sh *SequenceHandler) ResetOut() {
 	defer sh.lock.Unlock()
 
 	sh.outSeq.Store(0)
+}
+
+// HoldOut moves the outgoing sequence counter back to its maximum, so that the
+// next call to NextOut reports a rollover again. This is only used for the
+// priority sequence, which has used up its numbers but cannot roll the key over.
+func (sh *SequenceHandler) HoldOut() {
+	sh.lock.Lock()
+	defer sh.lock.Unlock()
+
+	sh.outSeq.Store(math.MaxUint32)
 }
 
 // Ack returns the highest sequence number received so far,
